@@ -247,8 +247,8 @@ impl AlternateTime {
         match self.std.ut_offset.cmp(&self.dst.ut_offset) {
             Ordering::Equal => Ok(crate::MappedLocalTime::Single(self.std)),
             Ordering::Less => {
-                if self.dst_start.transition_date(current_year).0
-                    < self.dst_end.transition_date(current_year).0
+                if self.dst_start.transition_date(current_year)
+                    < self.dst_end.transition_date(current_year)
                 {
                     // northern hemisphere
                     // For the DST END transition, the `start` happens at a later timestamp than the `end`.
@@ -292,8 +292,8 @@ impl AlternateTime {
                 }
             }
             Ordering::Greater => {
-                if self.dst_start.transition_date(current_year).0
-                    < self.dst_end.transition_date(current_year).0
+                if self.dst_start.transition_date(current_year)
+                    < self.dst_end.transition_date(current_year)
                 {
                     // southern hemisphere reverse DST
                     // For the DST END transition, the `start` happens at a later timestamp than the `end`.
